@@ -117,7 +117,7 @@ Lemma prepare_sound allow h rawkey alg k :
   prepare allow h rawkey = JOk (alg, k) ->
   dict_get "alg" h = Some (PStr alg) /\ registered alg = true /\
   (forall l, allow = Some l -> list_in_str alg l = true) /\
-  prepare_key alg (match rawkey with PNone => match dict_get "jwk" h with Some j => j | None => PNone end | _ => rawkey end) = Some k.
+  prepare_key alg (effective_key h rawkey) = Some k.
 Proof.
   unfold JWS.prepare. destruct (dict_get "alg" h) as [[| | | |a| |]|]; try discriminate.
   destruct (match allow with Some l => negb (list_in_str a l) | None => false end) eqn:A; [discriminate|].
